@@ -9,7 +9,7 @@ CONSTANTS
   FormMenu = {"alloc", "detached"}
   DeliveryMenu <- NoMenu
   ExportMenu = {}
-  ShotSMenu <- NoMenu
+  ShotSMenu <- NoMenu2
   ShotRMenu <- NoMenu2
   MaxSeals = 100000
   MaxOpens = 100000
